@@ -81,6 +81,20 @@ def load_known():
         return json.load(f)["entries"]
 
 
+def load_baseline(prop):
+    """Names of the obligations that were DISCHARGED on the unchanged tree
+    (committed file baseline/proved.json, written by tools/mkbaseline.py from a
+    clean run).  An obligation of this list that the solver can no longer
+    discharge is reported as a violation (without a failing input if the
+    refuter finds none); an undischarged obligation that never was proved
+    stays `undecided`."""
+    p = os.path.join(VERIF, "baseline", "proved.json")
+    if not os.path.exists(p):
+        return set()
+    with open(p) as f:
+        return set(json.load(f).get(prop, []))
+
+
 def match_known(entries, prop, key):
     """Only entries of kind 'finding' suppress; 'fixed' entries never do."""
     for e in entries:
@@ -204,6 +218,7 @@ def finish(ctx, level, explanation, checker_cmd):
     """Classify, print, write evidence, return the exit code."""
     known = load_known()
     prop = ctx.prop
+    baseline = load_baseline(prop)
     violations = []      # (key, desc, replay_path, reproduced)
     known_hits = {}
     undecided = []
@@ -228,7 +243,20 @@ def finish(ctx, level, explanation, checker_cmd):
             violations.append((o.k(), "obligation refuted: " + o.name, rp,
                                reproduced))
         elif o.status == "unknown":
-            undecided.append(o)
+            if o.name in baseline and not match_known(known, prop, o.k()):
+                # discharged on the unchanged tree, not dischargeable now, and the
+                # refuter found no counter-model: reported, without a failing input
+                rp = _replay_path(prop, o.k())
+                with open(rp, "w") as f:
+                    json.dump({"property": prop, "obligation": o.name, "function": o.function,
+                               "engine": o.engine, "solver": o.solver,
+                               "verdict": "obligation was discharged on the unchanged tree (baseline/proved.json) "
+                                          "and is not discharged on this tree; no counter-model found",
+                               "solver_output": o.detail, "model": None, "replay": None}, f, indent=1, default=repr)
+                violations.append((o.k(), "obligation no longer discharged: %s (%s)" % (o.name, (o.detail or "")[:160]),
+                                   rp, False))
+            else:
+                undecided.append(o)
         else:
             errors.append(o)
 
@@ -303,6 +331,13 @@ def finish(ctx, level, explanation, checker_cmd):
         "assumptions": ctx.assumptions, "wall_s": round(wall, 2),
         "violations": len(violations),
     }
+    # names of what this run discharged (input of tools/mkbaseline.py; replays/ is not committed)
+    try:
+        os.makedirs(os.path.join(VERIF, "replays", prop), exist_ok=True)
+        with open(os.path.join(VERIF, "replays", prop, "_proved_%s.json" % ctx.tier), "w") as f:
+            json.dump(sorted({o.name for o in ctx.obligations if o.status == "proved"}), f)
+    except OSError:
+        pass
     os.makedirs(os.path.join(VERIF, "evidence"), exist_ok=True)
     with open(os.path.join(VERIF, "evidence", prop + ".json"), "w") as f:
         json.dump(ev, f, indent=1, default=repr)
